@@ -113,7 +113,12 @@ class EventDispatcher:
         # Existance of the referents shall be guaranteed by the
         # automatic cleanup
         for handler_ref, method_ref in set(self._events[event_name]):
-            method_ref(handler_ref(), *args, **kwargs)
+            handler = handler_ref()
+            # The handler may have died during this very dispatch
+            if handler is None:
+                continue
+
+            method_ref(handler, *args, **kwargs)
 
     @property
     def dispatch_enabled(self) -> bool:
